@@ -24,8 +24,11 @@ EQUAL = [
     ("torch.logical_and(m, v >= th)", "(v >= th) & m"),
     ("x ** 2", "x * x"),
     ("q / (td - tr) * s", "s * q / (td - tr)"),
+    ("torch.where(obs == tgt, amp, 0)", "amp * (obs == tgt)"),
+    ("torch.where(m(obs), a, d * 0)", "a * m(obs)"),
 ]
 UNEQUAL = [
+    ("(f if not t else t)(x)", "x"),
     ("a - b", "a + b"),
     ("torch.exp(-a/tc)", "torch.exp(a/tc)"),
     ("torch.where(c > 0, x, y)", "torch.where(c > 0, y, x)"),
